@@ -43,6 +43,7 @@ def run():
     import shutil
     import tempfile
     r = findings.Run("C12")
+    gen.HOSTILE_DAG = False     # the known exponential shape (C10) would only make whole sequences exceed their budget
     quick = common.tier() == "quick"
     rnd = random.Random(common.seed() + 12)
     n_groups = 24 if quick else 200
